@@ -1952,7 +1952,7 @@ lyd_new_implicit(struct lyd_node *parent, struct lyd_node **first, const struct 
         uint32_t impl_opts, struct ly_ht *getnext_ht, struct lyd_node **diff)
 {
     LY_ERR ret;
-    const struct lysc_node *snode, **choices, **snodes;
+    const struct lysc_node *snode, *scase, **choices, **snodes;
     struct lyd_node *node = NULL;
     struct lyd_value **dflts;
     LY_ARRAY_COUNT_TYPE u;
@@ -1983,9 +1983,10 @@ lyd_new_implicit(struct lyd_node *parent, struct lyd_node **first, const struct 
             LY_CHECK_RET(lyd_new_implicit(parent, first, &((struct lysc_node_choice *)snode)->dflt->node,
                     NULL, node_when, node_types, ext_node, impl_opts, getnext_ht, diff));
         } else if (node) {
-            /* create any default data in the existing case */
-            assert(node->schema->parent->nodetype == LYS_CASE);
-            LY_CHECK_RET(lyd_new_implicit(parent, first, node->schema->parent, NULL, node_when, node_types, ext_node,
+            /* create any default data in the existing case, the node may be in a nested choice so find the case of this choice */
+            for (scase = node->schema->parent; scase->parent != snode; scase = scase->parent) {}
+            assert(scase->nodetype == LYS_CASE);
+            LY_CHECK_RET(lyd_new_implicit(parent, first, scase, NULL, node_when, node_types, ext_node,
                     impl_opts, getnext_ht, diff));
         }
     }
